@@ -1957,6 +1957,9 @@ fn find_nsec_covering_record<'a>(
 
         test_name > nsec_name
             && (test_name < next_domain_name || Some(next_domain_name) == soa_name)
+            // if the next name is below `test_name`, then `test_name` exists as an empty
+            // non-terminal, RFC 4592 section 2.2.2
+            && !test_name.zone_of(next_domain_name)
     })
 }
 
